@@ -333,6 +333,7 @@ package resource
 //@   ensures [absent] !found ==> isnil(msg)
 //@   ensures [type] found && ref(recv.byId[keyOf(recv, id)].body) != nil ==> sametype(msg, recv.byId[keyOf(recv, id)].body) && !isnil(msg) && ref(msg) != nil
 //@   ensures [no-options] found && len(opts) == 0 ==> equalmsg(msg, recv.byId[keyOf(recv, id)].body)
+//@   ensures [stored-or-fresh] found ==> msg == recv.byId[keyOf(recv, id)].body || fresh(msg)
 //@   ensures [whole] found && readConfig.ReadMask == nil ==> equalmsg(msg, recv.byId[keyOf(recv, id)].body)
 //@   ensures [projection] found && readConfig.ReadMask != nil && len(readConfig.ReadMask.Paths) > 0 ==>
 //@   |   sametype(msg, recv.byId[keyOf(recv, id)].body) && msgval(msg) == filtered(msgval(recv.byId[keyOf(recv, id)].body), readConfig.ReadMask.Paths)
@@ -510,7 +511,7 @@ package resource
 //@   onsend typedEvents [seed]: sent != nil && (sent.SeedValue ==> !isnil(currentValue) && sent.LastSeedValue && sent.ChangeTime == changeTime && projected(sent.Value, currentValue, filter) && chanSent(typedEvents) == 0)
 //@   // updates: exactly the received event, projected; never equivalent to what the subscriber already holds
 //@   onsend typedEvents [update]: !sent.SeedValue ==> projected(sent.Value, cast(event, *ValueChange).Value, filter) && sent.ChangeTime == cast(event, *ValueChange).ChangeTime && sent.LastSeedValue == cast(event, *ValueChange).LastSeedValue
-//@   onsend typedEvents [not-equivalent]: !sent.SeedValue && !isnil(r.config.equivalence) ==> !r.config.equivalence.Compare(last, sent.Value)
+//@   onsend typedEvents [not-equivalent@C04+C16]: !sent.SeedValue && !isnil(r.config.equivalence) ==> !r.config.equivalence.Compare(last, sent.Value)
 //@   modifies nothing
 //@   ensures [closed] chanClosed(typedEvents)
 //@   ensures [no-seed-without-value] isnil(currentValue) ==> forall k int :: 0 <= k && k < chanSent(typedEvents) ==> !chanSentAt(typedEvents, k).SeedValue
